@@ -356,7 +356,7 @@ contract(
 
 
 def _cls_is(I, obj, name):
-    return obj.cls.rsplit(".", 1)[-1] == name
+    return isinstance(obj, _Obj) and obj.cls.rsplit(".", 1)[-1] == name
 
 
 from pyvc.specs import SPEC_NS as _NS
